@@ -30,13 +30,35 @@ enum Conn {
 /// tracker runs over it, and the probe right behind the block's `Start` must show each rise of
 /// the minimum.
 fn job_scenario(iters: Vec<Vec<Vec<Sym>>>, conn: Conn, layout: Layout, bound: usize) -> Scenario {
-    job_scenario_in(iters, conn, layout, bound, 0)
+    job_scenario_in(iters, conn, layout, bound, 0, true)
+}
+
+/// The loop-body jobs for C03 (control elements reach every connected replica in every round):
+/// only the per-link oracle, not the progress tracker.
+pub fn loop_jobs(quick: bool, progress: bool) -> Vec<Scenario> {
+    use Sym::{T, W};
+    let seq_sets: Vec<Vec<Vec<Vec<Sym>>>> = vec![
+        vec![vec![vec![T(1), W(1), T(2), W(2), T(3), W(3)], vec![T(1), W(1), T(3), W(3)], vec![W(2), T(4), W(4)]]],
+        vec![vec![vec![W(2), T(3)], vec![], vec![T(1), W(1)]]],
+        vec![vec![vec![T(0), W(0), T(1), W(1)], vec![T(2), W(2)], vec![W(0), W(3)]]],
+        vec![vec![vec![T(1), W(2), T(3), T(4), W(4)], vec![W(1), W(2), W(3), T(4)], vec![T(2), W(3)]]],
+    ];
+    let mut out = vec![];
+    for (layout, bound) in [(Layout::Local(2), if quick { 0 } else { 1 }), (Layout::Remote(vec![1, 1]), 0)] {
+        for set in &seq_sets[..if quick { 2 } else { 4 }] {
+            for conn in [Conn::Shuffle, Conn::GroupBy, Conn::Broadcast] {
+                let set2: Vec<Vec<Vec<Sym>>> = set.iter().map(|it| it[..layout.total_cores() as usize].to_vec()).collect();
+                out.push(job_scenario_in(set2, conn, layout.clone(), bound, if quick { 2 } else { 3 }, progress));
+            }
+        }
+    }
+    out
 }
 
 /// `rounds` > 0: the connection and the probes sit inside the body of `replay(rounds, ..)`, which
 /// feeds the same timestamped input (watermarks included) to every round - event time starts
 /// over in each of them, and the loop protocol keeps the rounds of different replicas apart.
-fn job_scenario_in(iters: Vec<Vec<Vec<Sym>>>, conn: Conn, layout: Layout, bound: usize, rounds: usize) -> Scenario {
+fn job_scenario_in(iters: Vec<Vec<Vec<Sym>>>, conn: Conn, layout: Layout, bound: usize, rounds: usize, progress: bool) -> Scenario {
     let n = layout.total_cores() as usize;
     let name = format!("C17/job{}/{:?}/{}/{:?}", if rounds > 0 { format!("-replay{rounds}") } else { String::new() }, conn, layout.name(), iters).replace(' ', "");
     let descr = format!("timestamped source with per-iteration, per-replica sequences {:?} (T = element, W = watermark) -> {}probe -> {:?} -> probe, layout {}", iters, if rounds > 0 { format!("replay with {rounds} rounds of the body: ") } else { String::new() }, conn, layout.name());
@@ -154,6 +176,9 @@ fn job_scenario_in(iters: Vec<Vec<Vec<Sym>>>, conn: Conn, layout: Layout, bound:
             return Err(Fail::new("c17-job-replicas", format!("{d2}: {} producer replicas were seen, {n} expected", handed.len())));
         }
         let mut wm_seen = 0usize;
+        if !progress {
+            return Ok(hash_of(&(carried, r.trace.len())));
+        }
         for c in &consumers {
             let mut froms: BTreeSet<(u64, u64, u64)> = BTreeSet::new();
             for e in &r.log {
@@ -302,14 +327,7 @@ fn build(tier: Tier) -> Vec<Scenario> {
         }
     }
     // the same connection inside a loop body: watermarks cross the boundary in every round
-    for (layout, bound) in [(Layout::Local(2), if tier == Tier::Quick { 0 } else { 1 }), (Layout::Remote(vec![1, 1]), 0)] {
-        for set in &seq_sets[..if tier == Tier::Quick { 2 } else { 4 }] {
-            for conn in [Conn::Shuffle, Conn::GroupBy, Conn::Broadcast] {
-                let set2: Vec<Vec<Vec<Sym>>> = set.iter().map(|it| it[..layout.total_cores() as usize].to_vec()).collect();
-                out.push(job_scenario_in(set2, conn, layout.clone(), bound, if tier == Tier::Quick { 2 } else { 3 }));
-            }
-        }
-    }
+    out.extend(loop_jobs(tier == Tier::Quick, true));
     // slow sources and timed batching: control elements still reach every replica in time
     out.extend(crate::props::timed::scenarios("C17", tier == Tier::Quick, "C17"));
     out
